@@ -809,6 +809,123 @@ func init() {
 					"progs": [][]N{{stmt(N{"k": "mcall", "o": N{"k": "bin", "op": "*", "l": l, "r": r, "pp": true}, "m": "len", "args": []N{}, "pp": false})}}})
 			}
 		}
+		// values as graphs: containers that contain themselves or share a third, under every walk (comparison, printing),
+		// and prototype chains of dicts (own entry first, then the chain; chains that return to a visited dict).
+		// The cycles are cut before the program ends, so that the final variables are trees again.
+		{
+			attr := func(o N, n string) N { return N{"k": "attr", "o": o, "n": n, "nc": chars(n), "pp": false} }
+			setAttr := func(v, a string, e N) N {
+				return stmt(N{"k": "assignAttr", "n": v, "a": a, "ac": chars(a), "e": e, "pp": false})
+			}
+			mcall := func(o N, m string, args ...N) N {
+				if args == nil {
+					args = []N{}
+				}
+				return N{"k": "mcall", "o": o, "m": m, "args": args, "pp": false}
+			}
+			call := func(f string, args ...N) N { return N{"k": "call", "f": f, "args": args, "pp": false} }
+			arr := func(xs ...N) N {
+				if xs == nil {
+					xs = []N{}
+				}
+				return N{"k": "arr", "xs": xs, "pp": false}
+			}
+			dict1 := func(k string, v N) N {
+				return N{"k": "dict", "kv": []N{{"key": N{"k": "str", "c": chars(k), "q": 1, "pp": false}, "val": v}}, "pp": false}
+			}
+			emptyDict := N{"k": "dict", "kv": []N{}, "pp": false}
+			hist := func(progs ...[]N) {
+				id++
+				w.Write(N{"id": id, "cfg": N{"div0": false, "mode": -1, "fuel": 10, "loopmax": 5}, "faces": []int{}, "progs": progs})
+			}
+			// builders of a (possibly cyclic) array in variable v: shape -> statements
+			arrShapes := map[string]func(v string) []N{
+				"self":     func(v string) []N { return []N{asg(v, arr(iv(1))), stmt(mcall(vr(v), "push", vr(v)))} },
+				"selfTwice": func(v string) []N { return []N{asg(v, arr(iv(1))), stmt(mcall(vr(v), "push", vr(v))), stmt(mcall(vr(v), "push", vr(v)))} },
+				"self2":    func(v string) []N { return []N{asg(v, arr(iv(2))), stmt(mcall(vr(v), "push", vr(v)))} },
+				"unrolled": func(v string) []N { return []N{asg(v, arr(iv(1))), asg(v+"i", arr(iv(1))), stmt(mcall(vr(v), "push", vr(v+"i"))), stmt(mcall(vr(v+"i"), "push", vr(v)))} },
+				"tree":     func(v string) []N { return []N{asg(v, arr(iv(1), arr(iv(1), arr(iv(1)))))} },
+				"viaSet":   func(v string) []N { return []N{asg(v, arr(iv(1), iv(0))), stmt(N{"k": "assignIdx", "o": vr(v), "i": iv(1), "e": vr(v), "pp": false})} },
+				"shared":   func(v string) []N { return []N{asg(v+"i", arr(iv(1))), asg(v, arr(vr(v+"i"), vr(v+"i")))} },
+				"twins":    func(v string) []N { return []N{asg(v, arr(arr(iv(1)), arr(iv(1))))} },
+			}
+			cut := func(vs ...string) []N {
+				var out []N
+				for _, v := range vs {
+					out = append(out, asg(v, iv(0)))
+				}
+				return out
+			}
+			anames := []string{"self", "selfTwice", "self2", "unrolled", "tree", "viaSet", "shared", "twins"}
+			for _, s1 := range anames {
+				for _, s2 := range anames {
+					prog := append(arrShapes[s1]("u"), arrShapes[s2]("w")...)
+					prog = append(prog, asg("r", arr(bin("==", vr("u"), vr("w")), bin("!=", vr("w"), vr("u")), bin("==", vr("u"), vr("u")), bin("==", arr(vr("u")), arr(vr("w"))),
+						call("toStr", vr("u")), call("repr", vr("w")), mcall(vr("u"), "len"), bin("==", N{"k": "idx", "o": vr("u"), "i": iv(1), "pp": false}, vr("w")))))
+					prog = append(prog, cut("u", "w", "ui", "wi")...)
+					prog = append(prog, stmt(vr("r")))
+					hist(prog)
+				}
+				// walks through the cycle: indexing round and round, concatenation, repetition, template holes
+				prog := append(arrShapes[s1]("u"), asg("r", arr(N{"k": "idx", "o": N{"k": "idx", "o": N{"k": "idx", "o": vr("u"), "i": iv(1), "pp": false}, "i": iv(1), "pp": false}, "i": iv(0), "pp": false},
+					call("toStr", bin("+", vr("u"), vr("u"))), call("toStr", bin("*", vr("u"), iv(2))), call("toStr", arr(vr("u"), vr("u"))),
+					N{"k": "tmpl", "q": 3, "pp": false, "parts": []N{{"k": "lit", "c": []string{"a"}}, {"k": "hole", "pct": false, "body": []N{stmt(vr("u"))}}, {"k": "hole", "pct": false, "body": []N{stmt(vr("u"))}}}})))
+				prog = append(prog, cut("u", "ui")...)
+				prog = append(prog, stmt(vr("r")))
+				hist(prog)
+			}
+			// dicts: self-containing, and pairs of them
+			dictShapes := map[string]func(v string) []N{
+				"self":  func(v string) []N { return []N{asg(v, dict1("a", iv(1))), setAttr(v, "k", vr(v))} },
+				"self2": func(v string) []N { return []N{asg(v, dict1("a", iv(2))), setAttr(v, "k", vr(v))} },
+				"loop2": func(v string) []N { return []N{asg(v, dict1("a", iv(1))), asg(v+"i", dict1("a", iv(1))), setAttr(v, "k", vr(v+"i")), setAttr(v+"i", "k", vr(v))} },
+				"tree":  func(v string) []N { return []N{asg(v, dict1("a", iv(1))), setAttr(v, "k", dict1("a", iv(1)))} },
+				"plain": func(v string) []N { return []N{asg(v, dict1("a", iv(1)))} },
+			}
+			dnames := []string{"self", "self2", "loop2", "tree", "plain"}
+			for _, s1 := range dnames {
+				for _, s2 := range dnames {
+					prog := append(dictShapes[s1]("u"), dictShapes[s2]("w")...)
+					prog = append(prog, asg("r", arr(bin("==", vr("u"), vr("w")), bin("!=", vr("w"), vr("u")), bin("==", vr("u"), vr("u")), bin("==", attr(vr("u"), "k"), vr("w")),
+						bin("==", attr(attr(vr("u"), "k"), "a"), attr(vr("w"), "a")), mcall(vr("u"), "len"))))
+					prog = append(prog, cut("u", "w", "ui", "wi")...)
+					prog = append(prog, stmt(vr("r")))
+					hist(prog)
+				}
+			}
+			// prototype chains
+			proto := func(v string, e N) N { return setAttr(v, "__proto__", e) }
+			reads := func(v string) N {
+				return arr(attr(vr(v), "hp"), attr(vr(v), "mp"), attr(vr(v), "zz"), attr(vr(v), "sh"))
+			}
+			chains := [][]N{
+				// c -> p
+				{asg("p", dict1("hp", iv(3))), setAttr("p", "sh", iv(1)), asg("c", dict1("mp", iv(5))), setAttr("c", "sh", iv(2)), proto("c", vr("p"))},
+				// c -> p -> g, with shadowing at each level
+				{asg("g", dict1("hp", iv(9))), setAttr("g", "zz", iv(7)), asg("p", dict1("hp", iv(3))), proto("p", vr("g")), asg("c", dict1("mp", iv(5))), proto("c", vr("p"))},
+				// own entry holding null hides the chain
+				{asg("p", dict1("hp", iv(3))), asg("c", dict1("hp", null)), proto("c", vr("p"))},
+				// a prototype that is not a dict ends the chain
+				{asg("p", dict1("hp", iv(3))), asg("c", dict1("mp", iv(5))), proto("c", iv(4))},
+				{asg("p", dict1("hp", iv(3))), asg("c", dict1("mp", iv(5))), proto("c", arr(vr("p")))},
+				// the chain returns to a visited dict
+				{asg("c", dict1("mp", iv(5))), proto("c", vr("c"))},
+				{asg("p", dict1("hp", iv(3))), asg("c", dict1("mp", iv(5))), proto("c", vr("p")), proto("p", vr("c"))},
+				{asg("g", dict1("zz", iv(7))), asg("p", dict1("hp", iv(3))), asg("c", dict1("mp", iv(5))), proto("c", vr("p")), proto("p", vr("g")), proto("g", vr("p"))},
+				{asg("p", emptyDict), proto("p", vr("p")), asg("c", dict1("mp", iv(5))), proto("c", vr("p"))},
+			}
+			for _, ch := range chains {
+				prog := append([]N{}, ch...)
+				prog = append(prog, asg("r", arr(reads("c"), reads("p"))))
+				// writing through the child creates an own entry; the prototype keeps its own
+				prog = append(prog, setAttr("c", "hp", iv(50)), asg("r2", arr(attr(vr("c"), "hp"), attr(vr("p"), "hp"))))
+				prog = append(prog, proto("c", iv(0)), proto("p", iv(0)), asg("g", iv(0)))
+				prog = append(prog, stmt(arr(vr("r"), vr("r2"))))
+				hist(prog)
+				// the same across programs of one history
+				hist(append([]N{}, ch...), []N{stmt(reads("c"))}, []N{proto("c", iv(0)), proto("p", iv(0)), asg("g", iv(0)), stmt(reads("c"))})
+			}
+		}
 		// name capture: a computed value or function written against a global variable, read from a frame that binds the same name
 		{
 			fn := func(name string, ps []string, body ...N) N { return N{"k": "func", "n": name, "ps": ps, "b": body} }
